@@ -304,30 +304,66 @@ Definition mkenv (l : list Q) : env := combine VARS l.
 Definition lr (i a o : Z) (l : list Q) : lrow := mkL i a o (mkenv l).
 Definition tr (u o a t : Z) (y c : bool) (l : list Q) : record := mkRec (mkUnit u o a t y c (mkenv l)) (mkenv l).
 Definition dr := mkDraw.
+Definition qi (z : Z) : Q := inject_Z z.
+(* a row of predicted_outcomes: uid, id, time_in, time_out, outcome, exposure, covariates in call order *)
+Definition porow := (Z * Z * Z * Z * bool * Q * list Q)%%type.
+Definition po (u o a t : Z) (y : bool) (x : Q) (l : list Q) : porow := (u, o, a, t, y, x, l).
+Fixpoint ql_eqb (a b : list Q) : bool :=
+  match a, b with [] , [] => true | x :: a', y :: b' => Qeq_bool x y && ql_eqb a' b' | _, _ => false end.
 Fixpoint zl_eqb (a b : list Z) : bool :=
   match a, b with [] , [] => true | x :: a', y :: b' => Z.eqb x y && zl_eqb a' b' | _, _ => false end.
-Fixpoint zll_eqb (a b : list (list Z)) : bool :=
-  match a, b with [] , [] => true | x :: a', y :: b' => zl_eqb x y && zll_eqb a' b' | _, _ => false end.
-(* equality of everything that is printed *)
-Definition rec_same (r s : record) : bool :=
+Fixpoint first_diff {A B} (same : A -> B -> bool) (k : Z) (a : list A) (b : list B) : Z :=
+  match a, b with
+  | [], [] => -1
+  | x :: a', y :: b' => if same x y then first_diff same (k + 1) a' b' else k
+  | _, _ => k
+  end.
+Definition envs (e : env) : list Q := map (fun v => get v e) VARS.
+Definition po_same (c : cfg) (r : record) (p : porow) : bool :=
+  let '(u, o, a, t, y, x, l) := p in
+  Z.eqb (ruid r) u && Z.eqb (oid (r_unit r)) o && Z.eqb (rtin r) a && Z.eqb (rtout r) t && Bool.eqb (routc r) y
+  && Qeq_bool (rexpo c r) x && ql_eqb (map (fun lv : Z * var => get (snd lv) (uenv (r_unit r))) (c_covs c)) l.
+(* model record vs implementation row recorded at out_recode: everything but the stacked columns *)
+Definition tr_same (r s : record) : bool :=
   Z.eqb (ruid r) (ruid s) && Z.eqb (oid (r_unit r)) (oid (r_unit s)) && Z.eqb (rtin r) (rtin s) && Z.eqb (rtout r) (rtout s)
-  && Bool.eqb (routc r) (routc s) && Bool.eqb (runc r) (runc s)
-  && zll_eqb (map (fun v => Qp (get v (uenv (r_unit r)))) VARS) (map (fun v => Qp (get v (uenv (r_unit s)))) VARS)
-  && zll_eqb (map (fun v => Qp (get v (r_seen r))) VARS) (map (fun v => Qp (get v (r_seen s))) VARS).
-Fixpoint same_print (a b : list record) : bool :=
-  match a, b with [], [] => true | r :: a', s :: b' => rec_same r s && same_print a' b' | _, _ => false end.
-Definition report (c : cfg) (n : nat) (picks : list nat) (long : list lrow) (draws : list (list udraw)) (trace : list record) :=
+  && Bool.eqb (routc r) (routc s) && Bool.eqb (runc r) (runc s) && ql_eqb (envs (r_seen r)) (envs (r_seen s)).
+Definition rec_same (r s : record) : bool := tr_same r s && ql_eqb (envs (uenv (r_unit r))) (envs (uenv (r_unit s))).
+Definition base_same (a b : lrow) : bool :=
+  Z.eqb (l_id a) (l_id b) && Z.eqb (l_tin a) (l_tin b) && Z.eqb (l_tout a) (l_tout b) && ql_eqb (envs (l_env a)) (envs (l_env b)).
+(* rows entering step s+1 carry the columns stacked at the end of step s (lag update applied); step 0: the sampled row *)
+Definition cmp_po (c : cfg) (model : list record) (impl : option (list porow)) :=
+  match impl with
+  | None => (-2, 0, 0, [])
+  | Some rows => let k := first_diff (po_same c) 0 model rows in
+                 (k, Z.of_nat (length model), Z.of_nat (length rows),
+                  if k <? 0 then [] else print_recs VARS (firstn 1 (skipn (Z.to_nat k) model)))
+  end.
+Definition report (c : cfg) (n : nat) (picks : list nat) (long : list lrow) (draws : list (list udraw))
+                  (base_i : list lrow) (po_full po_low : option (list porow)) (spy : bool) (trace : list record)
+                  (uids_in uids_out : list (list Z)) :=
   let base := baseline long in
   let full := run false c n picks long draws in
   let low := run true c n picks long draws in
-  (print_base VARS base, print_recs VARS full, print_recs VARS low,
-   map (map ruid) (steps c (init_pop n picks base) draws),
-   (map zb (spec_trace c n picks base trace), zb (lags_okb [] (c_lags c)), zb (same_print (lasts n full) low))).
+  let su := map (map ruid) (steps c (init_pop n picks base) draws) in
+  let kt := if spy then first_diff tr_same 0 full trace else -1 in
+  (first_diff base_same 0 base base_i,
+   cmp_po c full po_full, cmp_po c low po_low,
+   (kt, Z.of_nat (length full), Z.of_nat (length trace), if kt <? 0 then [] else print_recs VARS (firstn 1 (skipn (Z.to_nat kt) full))),
+   (if spy then first_diff zl_eqb 0 su uids_in else -1, if spy then first_diff zl_eqb 0 su uids_out else -1, map (fun l => Z.of_nat (length l)) su),
+   (map zb (spec_trace c n picks base trace), zb (lags_okb [] (c_lags c)), first_diff rec_same 0 (lasts n full) low)).
 ''' % len(VARS)
 
 
-def coq_case(spec, obs, T):
-    """the Coq expression of one run: configuration, long data, recorded picks and draws, implementation trace"""
+def qv(x):
+    '''Q literal; integers through inject_Z (shorter to parse)'''
+    fr = x if isinstance(x, Fraction) else Fraction(x)
+    if fr.denominator == 1:
+        return '(qi %d)' % fr.numerator if fr.numerator >= 0 else '(qi (%d))' % fr.numerator
+    return q(fr)
+
+
+def coq_case(spec, obs, T, po_full, po_low):
+    '''the Coq expression of one run: configuration, long data, recorded picks and draws, implementation rows'''
     covs = COV_ORDERS.get(spec['covs'], [])
     lags = LAGS[spec['lags']] or []
     plan = {'all': 'PAll', 'none': 'PNone', 'natural': 'PNatural'}.get(spec['plan'])
@@ -336,14 +372,28 @@ def coq_case(spec, obs, T):
     cfg = '(mkCfg %s %d%%nat [%s] [%s] %s %d%%nat)' % (
         plan, CODE['A'], '; '.join('(%s, %d%%nat)' % (z(l), CODE[c]) for l, c in covs),
         '; '.join('(%d%%nat, %d%%nat)' % (CODE[k], CODE[v]) for k, v in lags), b(spec['cens']), T)
-    long_rows = '[' + '; '.join('lr %s %s %s [%s]' % (z(r['id']), z(r['t_in']), z(r['t_out']), ';'.join(q(r[v]) for v in VARS))
-                                for r in obs['long']) + ']'
+
+    def lrows(rows):
+        return '[' + ';'.join('lr %s %s %s [%s]' % (z(r['id']), z(r['t_in']), z(r['t_out']), ';'.join(qv(x) for x in r['env'])) for r in rows) + ']'
+
+    def porows(rows):
+        if rows is None:
+            return 'None'
+        return '(Some [' + ';'.join('po %s %s %s %s %s %s [%s]' % (z(r[0]), z(r[1]), z(r[2]), z(r[3]), b(r[4]), qv(r[5]), ';'.join(qv(x) for x in r[6]))
+                                    for r in rows) + '])'
+
+    def zll(ll):
+        return '[' + ';'.join('[' + ';'.join(z(x) for x in l) + ']' for l in ll) + ']'
     picks = '[' + ';'.join('%d' % p for p in obs['picks']) + ']%nat'
-    draws = '[' + ';\n '.join('[' + ';'.join('dr [%s] %s %s %s' % (';'.join(q(c) for c in d[0]), b(d[1]), b(d[2]), b(d[3])) for d in st) + ']'
+    draws = '[' + ';\n '.join('[' + ';'.join('dr [%s] %s %s %s' % (';'.join(qv(c) for c in d[0]), b(d[1]), b(d[2]), b(d[3])) for d in st) + ']'
                               for st in obs['udraws']) + ']'
     trace = '[' + ';'.join('tr %s %s %s %s %s %s [%s]' % (z(r['uid']), z(r['id']), z(r['t_in']), z(r['t_out']), b(r['Y']), b(r['unc']),
-                                                       ';'.join(q(x) for x in r['env'])) for r in obs['trace']) + ']'
-    return 'report %s %d%%nat %s\n %s\n %s\n %s' % (cfg, spec['sample'], picks, long_rows, draws, trace)
+                                                       ';'.join(qv(x) for x in r['env'])) for r in obs['trace']) + ']'
+    spy = obs['trace_steps'] is not None
+    uin = zll([[r['uid'] for r in st] for st in obs['in_steps']]) if spy else '[]'
+    uout = zll([[r['uid'] for r in st] for st in obs['trace_steps']]) if spy else '[]'
+    return 'report %s %d%%nat %s\n %s\n %s\n %s\n %s\n %s %s\n %s\n %s %s' % (
+        cfg, spec['sample'], picks, lrows(obs['long']), draws, lrows(obs['base']), porows(po_full), porows(po_low), b(spy), trace, uin, uout)
 
 
 # ------------------------------------------------------------------------------------------------ observation -> model inputs
